@@ -368,7 +368,14 @@ def _random(job):
                         e = None
                     h.op_setslice(s, e)
                 elif r < 0.95:
-                    h.op_setslice(None, rng.randint(0, n))
+                    # every combination of omitted / non-negative / negative bounds (equal-length assignment, non-empty target)
+                    s_ = rng.choice([None, rng.randrange(-n, n), rng.randrange(-n, n)])
+                    e_ = rng.choice([None, rng.randint(-n, n), rng.randint(-n, n)])
+                    if len(h.m[s_:e_]) > 0:
+                        h.c('setslice_form:' + ('N' if s_ is None else '-' if s_ < 0 else '+') + ('N' if e_ is None else '-' if e_ < 0 else '+'))
+                        h.op_setslice(s_, e_)
+                    else:
+                        h.op_setslice(None, rng.randint(0, n))
                 else:
                     h.op_flush()
             h.c('ops')
